@@ -1562,6 +1562,41 @@ func vfMultiPartQueries() []string {
 }
 
 // vfExtraQueries: hand written texts for constructs the fixture corpora use rarely or not at all (S1, multiset check).
+// vfKeywordKeyQueries: EVERY keyword token of the grammar (read from Cypher.g4: the lexer rules spelled letter by letter)
+// as a backticked property key in lookup, map-literal and SET position, in lower case, upper case and capitalised. The
+// emitter decides per key whether it can be written bare; whatever it decides, the emitted text has to parse again and
+// carry the same key.
+func vfKeywordKeyQueries() []string {
+	data, err := os.ReadFile(filepath.Join("..", "grammar", "Cypher.g4"))
+	if err != nil {
+		return []string{"harness cannot read the grammar: " + err.Error()}
+	}
+	rule := regexp.MustCompile(`(?m)^([A-Z_]+) : ((?:\( '[^']' \| '[^']' \) ?)+);`)
+	letter := regexp.MustCompile(`\( '([^'])' \|`)
+	var out []string
+	seen := map[string]bool{}
+	for _, m := range rule.FindAllStringSubmatch(string(data), -1) {
+		word := ""
+		for _, l := range letter.FindAllStringSubmatch(m[2], -1) {
+			word += l[1]
+		}
+		if len(word) < 2 || seen[word] {
+			continue
+		}
+		seen[word] = true
+		for _, w := range []string{strings.ToLower(word), strings.ToUpper(word), strings.ToUpper(word[:1]) + strings.ToLower(word[1:])} {
+			out = append(out,
+				"match (n) return n.`"+w+"`",
+				"match (n {`"+w+"`: 1}) return {`"+w+"`: n.`"+w+"`}",
+				"match (n) set n.`"+w+"` = 1 remove n.`"+w+"` return n")
+		}
+	}
+	if len(out) < 200 {
+		out = append(out, fmt.Sprintf("harness found only %d keyword queries in the grammar", len(out)))
+	}
+	return out
+}
+
 var vfExtraQueries = []string{
 	// sort keys that END in a reserved word used as a property key, without an explicit direction
 	"match (n) return n order by n.desc",
@@ -1798,6 +1833,7 @@ func TestVerifBoundedFaithful(t *testing.T) {
 	chunked("S1-fixtures", fixtures, 20, func(q string, r *vfResult) { r.record(q, vfCheck(q, false, nil)) })
 
 	chunked("S1-extras", vfExtraQueries, 20, func(q string, r *vfResult) { r.record(q, vfCheck(q, false, nil)) })
+	chunked("S1-keyword-keys", vfKeywordKeyQueries(), 40, func(q string, r *vfResult) { r.record(q, vfCheck(q, false, nil)) })
 
 	// ---- S1: multi-part queries in which updating clauses and WITH alternate (sequence check: the clause ORDER is kept)
 	multiPart := vfMultiPartQueries()
